@@ -8,11 +8,11 @@ REFINE = CORE + ["HeapFacts", "Refine1", "Refine2", "Refine3", "Refine4"]
 PROPS = {
  "C02": dict(needs=REFINE + ["FuelMono", "LinkStack"], gen=["GenStack"], slices=[("slices_core", "core_programs"), ("slices_core", "small_core"), ("slices_core", "spec_vs_machine")]),
  "C03": dict(needs=REFINE + ["RelA", "RelB", "RelC"], gen=[], slices=[("slices_lazy", "c03_bombs"), ("slices_core", "core_programs")]),
- "C05": dict(needs=REFINE + ["LinkStack", "Progress"], gen=["GenStack"], slices=[("slices_core", "core_programs")]),
+ "C05": dict(needs=REFINE + ["LinkStack", "Progress"], gen=["GenStack"], slices=[("slices_faults", "c05_ladders"), ("slices_core", "core_programs")]),
  "C07": dict(needs=REFINE + ["RunG", "Pure", "IOSpec"], gen=[], slices=[("slices_core", "io_trees")]),
  "C10": dict(needs=REFINE + ["RunG", "Exc", "Deep", "LinkErr"], gen=["GenErr"], slices=[("slices_lazy", "c10_faults"), ("slices_core", "core_programs")]),
  "C11": dict(needs=CORE + ["Float", "Arith", "LinkArith"], gen=["GenArith"], slices=[("slices_core", "int_kernels"), ("slices_values", "c11_tower")]),
- "C19": dict(needs=CORE + ["Events"], gen=[], slices=[("slices_core", "core_programs"), ("slices_core", "io_trees")]),
+ "C19": dict(needs=CORE + ["Events"], gen=[], slices=[("slices_core", "c19_dyck"), ("slices_core", "core_programs"), ("slices_core", "io_trees")]),
  "C01": dict(needs=["Base", "Num", "Lex", "Jamo", "SpecC01"], gen=["GenParse", "GenTS"], slices=[("slices_text", "c01_exhaustive"), ("slices_text", "c01_model_points"), ("slices_text", "c01_respell")]),
  "C08": dict(needs=["Base", "Num", "NumProofs", "Lex", "ParseProofs", "Strings", "Builtins", "Interp", "LinkNames"], gen=["GenParse", "GenNames", "GenIO"], slices=[("slices_text", "c08_codec"), ("slices_text", "c08_spellings")]),
  "C09": dict(needs=["Base", "Num", "NumProofs", "Lex", "ParseProofs"], gen=["GenParse"], slices=[("slices_text", "c09_parse")]),
@@ -24,4 +24,5 @@ PROPS = {
  "C17": dict(needs=CORE + ["RunG", "Codec", "Bits", "LinkBits"], gen=["GenBitwise"], slices=[("slices_values", "c17_bits")]),
  "C18": dict(needs=CORE + ["PrintInt"], gen=[], slices=[("slices_values", "c18_print"), ("slices_values", "c18_cli")]),
  "C13": dict(needs=REFINE + ["RunG", "Exc", "Once"], gen=[], slices=[("slices_core", "c13_once"), ("slices_core", "core_programs")]),
+ "C04": dict(needs=CORE + ["Events", "Progress", "NumProofs", "Lex", "ParseProofs", "LinkErr"], gen=["GenErr", "GenParse"], slices=[("slices_faults", "c04_sweep"), ("slices_world", "c14_faults"), ("slices_world", "c15_semantics"), ("slices_text", "c09_parse"), ("slices_core", "core_programs")]),
 }
